@@ -57,7 +57,7 @@ func runC05(r *run) {
 			a := append(w.args(src, g.context(0)), hexList([]string{"verifprobe"}), hexList([]string{"verifprobetag"}), "4", "4", "nocompare")
 			cases = append(cases, caseT{"conc", a})
 		}
-		for _, t := range pongo2.VerifRegisteredTags() {
+		for _, t := range registeredTags() {
 			use, ok := c03TagUse[t]
 			if !ok || t == "extends" {
 				continue
@@ -76,23 +76,33 @@ func runC05(r *run) {
 			a := append((&world{}).args(src, g.context(0)), "-", "-", "8", "4", "nocompare")
 			cases = append(cases, caseT{"conc", a})
 		}
+		// values shared by the contexts of all executions (slices with spare capacity, maps, a
+		// struct behind a pointer) under every operator, filter and loop form that reads them: the
+		// executions only read them
+		for i := range c05SharedTemplates {
+			cases = append(cases, caseT{"sharedvals", []string{fmt.Sprint(i), "-", "-", "-", "-", "-", "-", "-", "-", "8", "4"}})
+		}
 		if childMode || replayFile != "" {
 			return
 		}
 		// hand the whole batch to children
 		res := runIsolated("C05", cases, 5*time.Second, filepath.Join(r.outdir, "iso"))
 		for i, c := range cases {
-			id := r.emit("render", c.args, res[i].obs)
-			r.nontrivial(c.args[0])
+			op := "render"
+			if c.op == "sharedvals" {
+				op = c.op // no model counterpart: Go values
+			}
+			id := r.emit(op, c.args, res[i].obs)
+			r.nontrivial(c.args[0] + c.op)
 			if i%29 == 0 {
-				r.sample(map[string]any{"template": unhx(c.args[0]), "goroutines": c.args[9], "gomaxprocs": c.args[10], "observed": res[i].obs})
+				r.sample(map[string]any{"template": unhxOr(c.args[0]), "goroutines": c.args[9], "gomaxprocs": c.args[10], "observed": res[i].obs})
 			}
 			if res[i].obs == "race" || res[i].obs == "crash" || res[i].obs == "timeout" || res[i].reject != "" {
 				what := res[i].reject
 				if what == "" {
 					what = "concurrent execution: " + res[i].obs
 				}
-				r.reject(id, what, map[string]any{"template": unhx(c.args[0]), "goroutines": c.args[9], "gomaxprocs": c.args[10], "observed": res[i].obs})
+				r.reject(id, what, map[string]any{"template": unhxOr(c.args[0]), "goroutines": c.args[9], "gomaxprocs": c.args[10], "observed": res[i].obs})
 			}
 		}
 	}
@@ -100,7 +110,100 @@ func runC05(r *run) {
 	r.finish(map[string]any{"race_build": raceEnabled})
 }
 
+var c05SharedTemplates = []string{"{{ ss + own }}", "{{ ss|add:own }}", "{{ own + ss }}", "{{ ss|join:\",\" }}{{ own|join:\",\" }}", "{% for x in ss sorted %}{{ x }}{% endfor %}", "{% for x in ss reversed %}{{ x }}{% endfor %}",
+	"{% for x in si sorted %}{{ x }}{% endfor %}{% for x in si reversed sorted %}{{ x }}{% endfor %}", "{{ ss|slice:\"1:\"|join:\",\" }}", "{{ ss|first }}{{ ss|last }}{{ ss|length }}", "{{ sa|join:\"-\" }}{{ sa + own }}",
+	"{% for k, v in sm sorted %}{{ k }}{{ v }}{% endfor %}", "{{ sp.Items|join:\",\" }}{{ sp.Name }}", "{{ si|add:si }}{{ si + si }}", "{{ ss|random|length }}", "{% for x in ss %}{% cycle ss.0 own.0 %}{% endfor %}",
+	"{{ ss|slice:\":2\" + own }}", "{% with q=ss %}{{ q + own }}{% endwith %}", "{% set q = ss %}{{ q|add:own }}", "{% for x in sa sorted %}{{ x }}{% endfor %}", "{{ own.0 in ss }}{{ ss.1 in own }}",
+	"{% macro m(l) %}{{ l + own }}{% endmacro %}{{ m(ss) }}", "{{ ss|default:own }}{{ nothing|default:ss|join:\"\" }}", "{% ifchanged ss %}{{ ss|join:\"\" }}{% endifchanged %}", "{% firstof ss own %}", "{{ ss.0|add:own.0 }}"}
+
+type c05Shared struct {
+	Name  string
+	Items []string
+}
+
+func c05SharedValues() (pongo2.Context, func() string) {
+	ss := append(make([]string, 0, 16), "c", "a", "b")
+	si := append(make([]int, 0, 16), 3, 1, 2)
+	sa := append(make([]any, 0, 16), "z", "y", "x")
+	sm := map[string]int{"b": 2, "a": 1}
+	sp := &c05Shared{Name: "n", Items: append(make([]string, 0, 8), "i1", "i2")}
+	snap := func() string {
+		return fmt.Sprintf("%q|%v|%v|%v|%q|%s", ss[:cap(ss)], si[:cap(si)], sa[:cap(sa)], sm, sp.Items[:cap(sp.Items)], sp.Name)
+	}
+	return pongo2.Context{"ss": ss, "si": si, "sa": sa, "sm": sm, "sp": sp}, snap
+}
+
+func execC05Shared(r *run, c caseT) {
+	var ti int
+	fmt.Sscanf(c.args[0], "%d", &ti)
+	src := c05SharedTemplates[ti]
+	tpl, err := pongo2.FromString(src)
+	if err != nil {
+		r.emit(c.op, c.args, "cerr")
+		return
+	}
+	own := func(gi int) []string { return []string{fmt.Sprintf("o%d", gi), fmt.Sprintf("p%d", gi)} }
+	const k = 8
+	// what each execution gives alone, on values of its own
+	want := make([]string, k)
+	for gi := 0; gi < k; gi++ {
+		cx, _ := c05SharedValues()
+		cx["own"] = own(gi)
+		out, xerr := tpl.Execute(cx)
+		if xerr != nil {
+			out = "xerr"
+		}
+		want[gi] = out
+	}
+	shared, snap := c05SharedValues()
+	before := snap()
+	var wg sync.WaitGroup
+	start := make(chan struct{})
+	outs := make([]string, k)
+	for gi := 0; gi < k; gi++ {
+		wg.Add(1)
+		go func(gi int) {
+			defer wg.Done()
+			defer func() { _ = recover() }()
+			<-start
+			for rep := 0; rep < 20; rep++ {
+				cx := pongo2.Context{"own": own(gi)}
+				for kk, v := range shared {
+					cx[kk] = v
+				}
+				out, xerr := tpl.Execute(cx)
+				if xerr != nil {
+					out = "xerr"
+				}
+				if rep == 0 || out != want[gi] {
+					outs[gi] = out
+				}
+			}
+		}(gi)
+	}
+	close(start)
+	wg.Wait()
+	id := r.emit(c.op, c.args, "sharedvals")
+	if strings.Contains(src, "random") {
+		return
+	}
+	if after := snap(); after != before {
+		r.reject(id, "executing a template changed a value its contexts share (also beyond the slice's length)", map[string]any{"template": src, "before": before, "after": after})
+		return
+	}
+	for gi := range outs {
+		if outs[gi] != want[gi] {
+			r.reject(id, "an execution on shared context values returned something else than alone", map[string]any{"template": src, "alone": want[gi], "concurrent": outs[gi]})
+			return
+		}
+	}
+}
+
 func execC05(r *run, c caseT) {
+	if c.op == "sharedvals" {
+		execC05Shared(r, c)
+		return
+	}
 	// (child, or replay) one case: sequential result first, then k goroutines
 	w, src, ctx := worldFromArgs(c.args)
 	var k, procs int
@@ -172,4 +275,12 @@ func execC05(r *run, c caseT) {
 			return
 		}
 	}
+}
+
+func unhxOr(a string) string {
+	var ti int
+	if _, err := fmt.Sscanf(a, "%d", &ti); err == nil && len(a) < 3 && ti < len(c05SharedTemplates) {
+		return c05SharedTemplates[ti]
+	}
+	return unhx(a)
 }
